@@ -12,7 +12,11 @@ META = {
              "visual-only, Continuous2D, StepExpansion mean/min/max, mapped linear, KL-like expansion) with exact rationals, and the "
              "integer 1-D/2-D convolution matrices for 5 boundary conditions x odd/even (a)symmetric PSFs; 5 named deviations must "
              "violate. Every emitted case is replayed into the real LinearModel (forward, adjoint on all basis vectors, get_matrix, T) "
-             "and into Deconvolution1D/2D (custom + every named PSF, size parity, BC, legacy form) and Abel1D (every field type)."),
+             "and into Deconvolution1D/2D (custom + every named PSF, size parity, BC, legacy form) and Abel1D (every field type). "
+             "Part SEQ: a state machine over ONE model object (GetMatrix, T, T.get_matrix, T.T, assignment of domain_geometry / "
+             "range_geometry) - every behaviour of length 3 (thorough: a seeded sample of length 4) is replayed into one real object; "
+             "after every action forward / adjoint and the value the action returns must be the specification's numbers for the "
+             "CURRENT geometries; T's own matrix must reproduce T's forward; 3 more deviations must violate."),
     "note": ("Bounded sizes (function dimensions 4 and 6, images 2x2/2x3, test problems dim 4-8). KLExpansion is realised numerically "
              "(maps read off the original geometry object). Refusals (fun2par not implemented) are observations. Legacy "
              "Deconvolution1D has no documented operator: only the identities are checked."),
@@ -112,7 +116,9 @@ def check_linear(ctx, case, key, factory, exp):
         if Ad is not None:
             ok = close(ay, exp["adj_y"]) and close(Ad, M.T) and abs(float(fx @ y) - float(x @ ay)) <= 1e-9 * max(1.0, abs(float(fx @ y)))
             if not ok:
-                coded = close(ay, exp["adj_y_coded"]) and (exp["coded_adj_matrix"] is None or close(Ad, exp["coded_adj_matrix"]))
+                # the recorded finding is matched only by EXACTLY the values the named deviation AdjointViaFun2par predicts
+                # (on y and on every basis vector); any other wrong adjoint is a violation
+                coded = close(ay, exp["adj_y_coded"]) and close(Ad, exp["coded_adj_matrix"])
                 adj_cls = "via_fun2par" if coded else "other"
                 ctx.mismatch("adjoint/%s/%s" % (key, adj_cls), case,
                              "adjoint is not the transpose of forward: <Fwd x, y> != <x, Adj y>"
@@ -164,14 +170,38 @@ def check_linear(ctx, case, key, factory, exp):
         if err is not None or not close(tm, M.T):
             if err is None and exp["matrix_backed"] and close(tm, exp["F"].T):
                 cls = "stored"                   # the stored matrix transposed, geometries ignored
-            elif err is None and adj_cls == "via_fun2par" and Ad is not None and close(tm, Ad):
-                cls = "via_fun2par"              # assembled from a T.forward that equals the model's (coded) adjoint
+            elif err is None and adj_cls == "via_fun2par" and close(tm, exp["coded_adj_matrix"]):
+                cls = "via_fun2par"              # exactly the matrix AdjointViaFun2par predicts: columns G+ F* H e_j
             elif not exp["matrix_backed"] and tag == "" and _t_forward_is_rewrapped(T, exp):
                 cls = "rewrapped"                # assembled from a T.forward that applies par2fun twice
             else:
                 cls = "other"
             ctx.mismatch("T%s_matrix/%s/%s" % (tag, key, cls), case, "T.get_matrix() is not get_matrix()^T", M.T,
                          tm if err is None else repr(err))
+        # the transposed model is a linear model too: ITS matrix reproduces ITS forward map column by column
+        if err is None and not adj_refused:
+            Tf = _columns(T.forward, pr)
+            if isinstance(Tf, Exception) or not close(tm, Tf):
+                # a function-backed model hands its assembled matrix (transposed) to T: consistent with T.forward only
+                # where the exposed adjoint is the transpose (spec: SeqTColumns under AdjointViaFun2par)
+                inherited = (tag == "_after_get_matrix" and not exp["matrix_backed"] and close(tm, M.T)
+                             and not isinstance(Tf, Exception) and close(Tf, exp["coded_adj_matrix"]))
+                ctx.mismatch("T%s_columns/%s/%s" % (tag, key, "inherited" if inherited else "other"), case,
+                             "T.get_matrix() does not reproduce T.forward column by column", Tf if not isinstance(Tf, Exception) else repr(Tf), tm)
+
+
+def _columns(f, n):
+    """[f(e_1) ... f(e_n)] as a matrix, or the exception."""
+    cols = []
+    for j in range(n):
+        col, err = _try(lambda: f(np.eye(n)[j]))
+        if err is not None:
+            return err
+        cols.append(col)
+    try:
+        return np.column_stack(cols)
+    except Exception as e:  # noqa: BLE001 - ragged results
+        return e
 
 
 def _t_forward_is_rewrapped(T, exp):
@@ -195,12 +225,13 @@ def _lin_expectations(case, dom, rng):
         M = Hp @ F @ G
         Gp = dom.Gp
         if Gp is None:      # non-linear fun2par (min / max projection): evaluate the original geometry object
+            codedM = np.column_stack([np.asarray(dom.obj.fun2par(F.T @ H @ e), dtype=float) for e in np.eye(H.shape[1])])
             return {"x": x, "y": y, "fwd_x": M @ x, "adj_y": M.T @ y, "adj_y_coded": np.asarray(dom.obj.fun2par(F.T @ H @ y)),
-                    "matrix": M, "F": F, "coded_adj_matrix": None, "t_fwd_coded": None, "t_adj_coded": None, "matrix_backed": mb}
+                    "matrix": M, "F": F, "coded_adj_matrix": codedM, "t_fwd_coded": None, "t_adj_coded": None, "matrix_backed": mb}
         return {"x": x, "y": y, "fwd_x": M @ x, "adj_y": M.T @ y, "adj_y_coded": Gp @ F.T @ H @ y, "matrix": M, "F": F,
                 "coded_adj_matrix": Gp @ F.T @ H, "t_fwd_coded": None, "t_adj_coded": None, "matrix_backed": mb}
-    Gp = dom.Gp
-    coded = None if Gp is None or len(Gp) == 0 else np.asarray(Gp) @ F.T @ np.asarray(rng.G)
+    # G+ F* H e_j for every j, exactly as the deviation AdjointViaFun2par of the specification computes it
+    coded = np.column_stack([rvec(col) for col in case["adj_cols_coded"]])
     tf = rvec(case["t_fwd_coded"]) if len(case["t_fwd_coded"]) else None
     ta = rvec(case["t_adj_coded"]) if len(case["t_adj_coded"]) else None
     return {"x": x, "y": y, "fwd_x": rvec(case["fwd_x"]), "adj_y": rvec(case["adj_y"]), "adj_y_coded": rvec(case["adj_y_coded"]),
@@ -223,6 +254,302 @@ def check_lin_case(ctx, case):
         exp = _lin_expectations(case, dom, rng)
         exp["ckey"] = "/f%d/n%d" % (case["fi"], case["dg"]["n"])      # (accounting only: operator variant, orientation)
         check_linear(ctx, case, key, lambda: build_linear_model(case["mk"], exp["F"], dom, rng), exp)
+
+
+# ----------------------------------------------------------------------------------------------------------------------
+# sequences of public operations on ONE model object (ModelGeom.tla, part SEQ)
+# ----------------------------------------------------------------------------------------------------------------------
+SEQ_DEVIATIONS = [("StaleMatrixCache", "SeqMatrixCurrent"), ("TransposeKeptWhileGeometriesCompareEqual", "SeqTransposeCurrent"),
+                  ("AdjointViaFun2par", "SeqTColumns")]
+
+
+def _gid(g):
+    return "%s:%d:%d:%s:%s" % (g["kind"], g["n"], g["k"], g["proj"], ",".join(str(a) for a in g["asg"]))
+
+
+def seq_key(beh):
+    return "%s/f%d/%d.%d/" % (beh["mk"], beh["fi"], beh["d0"], beh["r0"]) + ".".join(
+        st["a"] + (str(st["g"]) if st["g"] else "") for st in beh["steps"])
+
+
+def seq_lin_needed(pool, beh, pred):
+    """(domain index, range index) pairs whose LinEval numbers the replay of this behaviour may look at."""
+    pairs = {(beh["d0"], beh["r0"])}
+    for st in list(beh["steps"]) + list(pred or []):
+        pairs.add((st["d"], st["r"]))
+        for f in ("tp", "mp"):
+            if st[f]:
+                pairs.add(tuple(st[f]))
+    return sorted(pairs)
+
+
+class _SeqWorld:
+    """Real objects of one behaviour: fresh geometry objects (one per pool entry used), the model, expectations per pair."""
+
+    def __init__(self, pool, lin, mk, fi, variant):
+        self.pool, self.lin, self.mk, self.fi, self.variant = pool, lin, mk, fi, variant
+        self.geoms, self.exps = {}, {}
+        self.shape = {}
+
+    def geom(self, side, i):
+        from cuqiverif.modelgeom_real import build_geometry, rmat
+        from cuqiverif.tlc import MachineryError
+        if (side, i) not in self.geoms:
+            g = self.pool[side][i - 1]
+            # numeric par2fun / fun2par matrices of this geometry: emitted by TLC with every configuration that has it
+            c = next((c for c in self.lin.values() if _gid(c["dg" if side == "D" else "rg"]) == _gid(g)), None)
+            if c is None:
+                raise MachineryError("no LinEval configuration emitted for the %s geometry %r of the sequences" % (side, g))
+            G, Gp = (rmat(c[k]) if len(c[k]) else None for k in (("Gd", "Gpd") if side == "D" else ("Hr", "Hpr")))
+            rg = build_geometry(g, G, Gp, variant=self.variant if g["kind"] == "linexp" else None)
+            if isinstance(rg.obj, int):
+                # the object an int is turned into by the constructor (public route: geometry of a throw-away model)
+                import cuqi
+                rg.obj = (cuqi.model.Model(lambda x: x, rg.obj, rg.obj)).domain_geometry
+            self.geoms[(side, i)] = rg
+        return self.geoms[(side, i)]
+
+    def exp(self, d, r):
+        from cuqiverif.tlc import MachineryError
+        if (d, r) not in self.exps:
+            dg, rg = self.pool["D"][d - 1], self.pool["R"][r - 1]
+            c = self.lin.get((self.mk, _gid(dg), _gid(rg), self.fi))
+            if c is None:
+                raise MachineryError("no LinEval configuration emitted for %s / %s / %s" % (self.mk, _gid(dg), _gid(rg)))
+            self.exps[(d, r)] = _lin_expectations(c, self.geom("D", d), self.geom("R", r))
+        return self.exps[(d, r)]
+
+    def model(self, d, r):
+        import cuqi
+        import scipy.sparse as sp
+        dom, rng = self.geom("D", d), self.geom("R", r)
+        F = self.exp(d, r)["F"]
+        self.shape["dom"], self.shape["rng"] = dom.fun_shape, rng.fun_shape
+        if self.mk == "dense":
+            return cuqi.model.LinearModel(F.copy(), range_geometry=rng.obj, domain_geometry=dom.obj)
+        if self.mk == "sparse":
+            return cuqi.model.LinearModel(sp.csc_matrix(F), range_geometry=rng.obj, domain_geometry=dom.obj)
+        shape = self.shape      # the user's function pair works on function values of whatever shape the geometries now have
+
+        def fwd(X):
+            return (F @ np.asarray(X).ravel()).reshape(shape["rng"])
+
+        def adj(Y):
+            return (F.T @ np.asarray(Y).ravel()).reshape(shape["dom"])
+
+        return cuqi.model.LinearModel(fwd, adj, range_geometry=rng.obj, domain_geometry=dom.obj)
+
+
+def check_seq_case(ctx, case):
+    """Replay one behaviour of the SEQ state machine into one real LinearModel; after EVERY action the object's forward /
+    adjoint (and what the action itself returns) must be the specification's values for the CURRENT geometries.
+
+    case: kind=seq, beh (mk, fi, d0, r0, steps, variant), pred (the steps as the `asbuilt` deviations predict them, or None),
+          pool {D, R}, lin [LinEval configurations of the pairs involved]"""
+    from cuqiverif.modelgeom_real import close, gkey
+    beh, pred = case["beh"], case.get("pred")
+    mk = beh["mk"]
+    lin = {(c["mk"], _gid(c["dg"]), _gid(c["rg"]), c["fi"]): c for c in case["lin"]}
+    W = _SeqWorld(case["pool"], lin, mk, beh["fi"], beh.get("variant"))
+    bkey = seq_key(beh) + ("/kl" if beh.get("variant") else "")
+    ctx.case("seq/" + bkey, facet="seq")
+    with warnings.catch_warnings():
+        warnings.simplefilter("ignore")
+        m = W.model(beh["d0"], beh["r0"])
+    t = None
+
+    def gk(d, r):
+        return "mk=%s/dom=%s/rng=%s" % (mk, gkey(W.geom("D", d).g), gkey(W.geom("R", r).g))
+
+    def bad(obs, d, r, cls, what, expected, observed):
+        ctx.mismatch("seq/%s/%s/%s" % (obs, gk(d, r), cls), case, what + " [after %s]" % done, expected, observed)
+
+    def fwd_adj(obj, name, e, d, r, transposed=False):
+        """forward / adjoint of `obj` on the lattice vector and on every basis vector against the pair's numbers.
+        transposed: obj is a transposed model (its forward is the adjoint of the pair and vice versa)."""
+        M = e["matrix"]
+        pr, pd = M.shape
+        f_name, a_name = ("adjoint", "forward") if transposed else ("forward", "adjoint")
+        # the map that must be H+ F G
+        fx, err = _try(lambda: getattr(obj, f_name)(e["x"]))
+        Fw = _columns(getattr(obj, f_name), pd) if err is None else err
+        if err is not None or isinstance(Fw, Exception) or not close(fx, e["fwd_x"]) or not close(Fw, M):
+            bad(name + f_name, d, r, "raised" if (err is not None or isinstance(Fw, Exception)) else "other",
+                "%s%s is not H+ F G of the specification for the current geometries" % (name, f_name), M,
+                repr(err) if err is not None else (repr(Fw) if isinstance(Fw, Exception) else Fw))
+        # the map that must be its transpose
+        ay, err = _try(lambda: getattr(obj, a_name)(e["y"]))
+        Ad = _columns(getattr(obj, a_name), pr) if err is None else err
+        if err is not None or isinstance(Ad, Exception):
+            bad(name + a_name, d, r, "raised", "%s%s raised" % (name, a_name), None, repr(err if err is not None else Ad))
+            return None
+        if not (close(ay, e["adj_y"]) and close(Ad, M.T)):
+            coded = close(ay, e["adj_y_coded"]) and close(Ad, e["coded_adj_matrix"])
+            bad(name + a_name, d, r, "via_fun2par" if coded else "other",
+                "%s%s is not the transpose of H+ F G for the current geometries" % (name, a_name)
+                + (" (it is the composition fun2par . F* . par2fun)" if coded else ""), M.T, Ad)
+        return Ad
+
+    def matrix_of(obj, name, e, d, r, mp, transposed=False, inh=False, Tf=None):
+        M = e["matrix"].T if transposed else e["matrix"]
+        call = {"get_": "", "T_": "T.", "TT_": "T.T."}[name]
+        Gm, err = _try(lambda: _dense(obj.get_matrix()))
+        if err is not None:
+            bad(name + "matrix", d, r, "raised", "%sget_matrix() raised" % call, M, repr(err))
+            return
+        cls = None
+        if not close(Gm, M):
+            cls = "other"
+            if mp and tuple(mp) != (d, r):
+                # what the deviation StaleMatrixCache predicts: the matrix assembled for an earlier pair of geometries
+                Ms = W.exp(*mp)["matrix"]
+                if close(Gm, Ms.T if transposed else Ms):
+                    cls = "stale_cache"
+            if cls == "other" and transposed and close(Gm, e["coded_adj_matrix"]):
+                cls = "via_fun2par"          # exactly the columns G+ F* H e_j that AdjointViaFun2par predicts for T.forward
+            if cls == "other" and name == "TT_" and inh and mk == "func" and close(Gm, e["coded_adj_matrix"].T):
+                # t.T of a function-backed t is handed the matrix t assembled from its own forward map (= the coded adjoint)
+                cls = "inherited"
+            bad(name + "matrix", d, r, cls, "%sget_matrix() is not the matrix of the specification for the current geometries"
+                % call + {"stale_cache": " (it is the matrix assembled for the geometries the model had before)",
+                          "via_fun2par": " (its columns are fun2par . F* . par2fun e_j)",
+                          "inherited": " (it is the transposed matrix of T, whose forward is fun2par . F* . par2fun)",
+                          "other": ""}[cls], M, Gm)
+        if transposed and Tf is not None and cls != "stale_cache" and not close(Gm, Tf):
+            # the transposed model is a linear model: its matrix reproduces ITS forward column by column
+            inherited = bool(inh) and mk == "func" and close(Gm, M) and close(Tf, e["coded_adj_matrix"])
+            if True:
+                bad("T_columns", d, r, "inherited" if inherited else "other",
+                    "T.get_matrix() does not reproduce T.forward column by column"
+                    + (" (matrix handed over by the function-backed model, T.forward = fun2par . F* . par2fun)" if inherited else ""),
+                    Tf, Gm)
+
+    d, r = beh["d0"], beh["r0"]
+    done = "construction"
+    t_fwd = None
+    for i, st in enumerate(beh["steps"]):
+        a = st["a"]
+        pst = pred[i] if pred else st
+        done_next = (done + " . " if i else "") + a + (str(st["g"]) if st["g"] else "")
+        with warnings.catch_warnings():
+            warnings.simplefilter("ignore")
+            if a in ("SD", "SR"):
+                side = a[1]
+                new = W.geom(side, st["g"])
+                old = m.domain_geometry if side == "D" else m.range_geometry
+                try:
+                    libeq = bool(old == new.obj)
+                except Exception:  # noqa: BLE001
+                    libeq = None
+                if libeq:
+                    ctx.observations["seq_assignments_of_a_geometry_the_library_calls_equal_to_the_old_one"] = \
+                        ctx.observations.get("seq_assignments_of_a_geometry_the_library_calls_equal_to_the_old_one", 0) + 1
+                try:
+                    if side == "D":
+                        m.domain_geometry = new.obj
+                    else:
+                        m.range_geometry = new.obj
+                except Exception as e:  # noqa: BLE001 - a refused assignment is acceptable: the behaviour ends here
+                    ctx.observations.setdefault("seq_assignment_refused", {})[gk(d, r)] = repr(e)[:120]
+                    return
+                W.shape["dom" if side == "D" else "rng"] = new.fun_shape
+                t = None
+                d, r = st["d"], st["r"]
+                done = done_next
+                e = W.exp(d, r)
+            else:
+                e = W.exp(d, r)
+                done = done_next
+                if a == "G":
+                    matrix_of(m, "get_", e, d, r, pst["mp"])
+                elif a == "T":
+                    try:
+                        t = m.T
+                    except Exception as ex:  # noqa: BLE001
+                        bad("T", d, r, "raised", ".T raised", None, repr(ex))
+                        return
+                    t_fwd = fwd_adj(t, "T_", e, d, r, transposed=True)
+                elif a == "TG":
+                    Tf = _columns(t.forward, e["matrix"].shape[0])
+                    matrix_of(t, "T_", e, d, r, pst["mp"], transposed=True, inh=pst["inh"],
+                              Tf=None if isinstance(Tf, Exception) else Tf)
+                elif a == "TT":
+                    try:
+                        tt = t.T
+                    except Exception as ex:  # noqa: BLE001
+                        bad("TT", d, r, "raised", ".T.T raised", None, repr(ex))
+                        return
+                    fwd_adj(tt, "TT_", e, d, r)
+                    matrix_of(tt, "TT_", e, d, r, pst["mp"], inh=pst["inh"])
+                else:
+                    from cuqiverif.tlc import MachineryError
+                    raise MachineryError("unknown action %r in a SEQ behaviour" % a)
+            # after EVERY action: forward and adjoint of the model itself, for the geometries it has now
+            fwd_adj(m, "", e, d, r)
+            ctx.facets["seq_action_" + a] = ctx.facets.get("seq_action_" + a, 0) + 1
+
+
+def run_seq(ctx, lin):
+    """TLC part SEQ + replay.  `lin`: the LinEval configurations emitted by part C07 (numbers for every pair)."""
+    import random
+    import zlib
+    from cuqiverif import tlc
+    from cuqiverif.core import MachineryError
+    tier = ctx.tier
+    for dev, inv in SEQ_DEVIATIONS:
+        res = ctx.tlc("ModelGeom", cfg="ModelGeom.SEQ.%s.deviation.cfg" % dev, workers=1, expect_violation=True, timeout=600)
+        if res.violated != inv:
+            raise MachineryError("deviation %s did not violate %s on the SEQ model (violated=%r)" % (dev, inv, res.violated))
+        ctx.observations.setdefault("deviation_counterexamples", {})["SEQ/" + dev] = inv
+        tlc.cleanup(res)
+    res = ctx.tlc("ModelGeom", cfg="ModelGeom.SEQ.%s.cfg" % tier, workers=4, timeout=1500)
+    ctx.model_must_hold(res, "ModelGeom.SEQ")
+    inits = [c for c in res.cases if c.get("kind") == "seqinit"]
+    behs = [c for c in res.cases if c.get("kind") == "seq"]
+    tlc.cleanup(res)
+    # what the deviations that describe the tree as built predict for the same behaviours (attribution of mismatches)
+    res = ctx.tlc("ModelGeom", cfg="ModelGeom.SEQ.asbuilt.%s.cfg" % tier, workers=4, timeout=1500)
+    ctx.model_must_hold(res, "ModelGeom.SEQ.asbuilt")
+    pred = {seq_key(c): c["steps"] for c in res.cases if c.get("kind") == "seq"}
+    tlc.cleanup(res)
+    if not inits or not behs:
+        raise MachineryError("no behaviours emitted by ModelGeom part SEQ (init=%d, seq=%d)" % (len(inits), len(behs)))
+    pool = {"D": inits[0]["D"], "R": inits[0]["R"]}
+    behs.sort(key=seq_key)
+    total = len(behs)
+    cap = 12000
+    if total > cap:       # thorough tier, depth 4: a seeded sample; every behaviour of depth 3 is a prefix of ~10 of them
+        rnd = random.Random(ctx.seed)
+        behs = sorted(rnd.sample(behs, cap), key=seq_key)
+    lin_by = {}
+    for c in lin:
+        lin_by.setdefault((c["mk"], c["fi"]), {})[(_gid(c["dg"]), _gid(c["rg"]))] = c
+    for b in behs:
+        k = seq_key(b)
+        if k not in pred:
+            raise MachineryError("behaviour %s missing from the as-built run of part SEQ" % k)
+        uses_exp = any(pool["D"][dd - 1]["kind"] == "linexp" or pool["R"][rr - 1]["kind"] == "linexp"
+                       for dd, rr in seq_lin_needed(pool, b, pred[k]))
+        # the abstract expansion is realised as an exact user geometry or as the real KLExpansion, alternating
+        b["variant"] = "kl" if uses_exp and (zlib.crc32(k.encode()) & 1) else None
+        table = lin_by.get((b["mk"], b["fi"]), {})
+        cases = []
+        for dd, rr in seq_lin_needed(pool, b, pred[k]):
+            c = table.get((_gid(pool["D"][dd - 1]), _gid(pool["R"][rr - 1])))
+            if c is None:
+                raise MachineryError("no LinEval configuration for pair (%d, %d) of behaviour %s" % (dd, rr, k))
+            cases.append(c)
+        check_seq_case(ctx, {"kind": "seq", "beh": b, "pred": pred[k], "pool": pool, "lin": cases})
+    # vacuity guards: every action kind replayed; at least one assignment that a cache keyed on `==` would not notice
+    for a in ("G", "T", "TG", "TT", "SD", "SR"):
+        if not ctx.facets.get("seq_action_" + a):
+            raise MachineryError("SEQ replay never executed action %s" % a)
+    if not ctx.observations.get("seq_assignments_of_a_geometry_the_library_calls_equal_to_the_old_one") \
+            and not ctx.observations.get("seq_assignment_refused"):
+        raise MachineryError("SEQ replay has no assignment of a geometry that compares equal to the replaced one")
+    ctx.observe("seq_behaviours", {"emitted": total, "replayed": len(behs), "depth": inits[0]["depth"]})
+    ctx.sample({"case": {"kind": "seq", "key": seq_key(behs[len(behs) // 2]), "steps": behs[len(behs) // 2]["steps"]}})
+    return len(behs)
 
 
 # ----------------------------------------------------------------------------------------------------------------------
@@ -526,6 +853,7 @@ def run(ctx):
                        | {gkey(c["rg"]) for c in lin if not c["coded_is_transpose"] and gkey(c["dg"]) == "cont1d"}))
     for c in lin:
         check_lin_case(ctx, c)
+    nseq = run_seq(ctx, lin)
     for c in conv:
         (check_conv1 if c["kind"] == "conv1" else check_conv2)(ctx, c)
     named = named_problems(tier)
@@ -539,10 +867,12 @@ def run(ctx):
     ctx.rule = ("one case per (model kind, domain geometry, range geometry, core operator) emitted by TLC from ModelGeom.tla with exact "
                 "Fwd x, Adj y, matrix; one per (1-D/2-D, PSF, boundary condition) with the integer convolution matrix; named-PSF / legacy / "
                 "Abel1D configurations enumerated by the harness; non-trivial = distinct configuration x check kind "
-                "(forward, adjoint, get_matrix, T, tp)")
+                "(forward, adjoint, get_matrix, T, tp); one per behaviour of the SEQ state machine (sequence of operations on one object)")
     ctx.exhaustive = True
-    ctx.traces = len(lin) + len(conv) + len(named)
+    ctx.traces = len(lin) + len(conv) + len(named) + nseq
     ctx.assumptions += ["function dimensions 4 and 6; test problems of dimension 4-8",
+                        "sequences: start configurations and geometry pools of ModelGeom.tla part SEQ (default, step, mapped, "
+                        "expansion; Image2D F in the thorough tier); a refused geometry assignment ends the behaviour (observation)",
                         "KLExpansion realised numerically: its par2fun/fun2par matrices are read off the original geometry object",
                         "named PSFs: documented operator taken from cuqi.testproblem._testproblem._getConvolutionOperator (scipy convolve1d)",
                         "floating comparison rtol=atol=1e-10 (1e-9 for FFT-based 2-D convolution)"]
@@ -554,6 +884,8 @@ def replay(ctx, case):
         return run(ctx)
     if kind == "lin":
         return check_lin_case(ctx, case)
+    if kind == "seq":
+        return check_seq_case(ctx, case)
     if kind == "conv1":
         return check_conv1(ctx, case)
     if kind == "conv2":
